@@ -26,7 +26,7 @@ class C10(Check):
             "after rollback = before? every query answers as before? retry = clean run? n and the error pattern are compared "
             "with the transcribed Coq program run on the model state. non-trivial = a state with at least one operation of "
             ">= 1 write; distinct by input")
-    N_QUICK = 30
+    N_QUICK = 32
     N_THOROUGH = 240
     ASSUMPTIONS = [
         "all-or-nothing of walletdb.Update itself (rollback discards the working copy) is property C11; the model's update does exactly that",
@@ -54,12 +54,16 @@ class C10(Check):
     def prebuild(self):
         """Until the files are listed in _CoqProject (and whenever the table in
         Generated/ErrFlow.v was regenerated from another tree) make sure the
-        .vo files of this property are newer than their sources."""
+        .vo files of this property are newer than their sources.  The table is
+        regenerated and compiled under one hold of the build lock."""
         ok, _ = ensure_coq()
         if not ok:
             return
         proj = open(os.path.join(COQ, "_CoqProject")).read()
         with Lock("coq"):
+            ok, _ = regenerate()
+            if not ok:
+                return
             stale = False
             for f in self.OWN[:-1]:
                 if f in proj:
@@ -69,6 +73,14 @@ class C10(Check):
                 if stale or not os.path.exists(vo) or os.path.getmtime(vo) < os.path.getmtime(v):
                     stale = True
                     sh(["timeout", "900", "coqc", "-R", ".", "Verif", f], cwd=COQ, timeout=1000)
+
+    def evaluate_model(self, cases):
+        try:
+            return super().evaluate_model(cases)
+        except (ValueError, KeyError) as ex:
+            # e.g. the shared history generator learnt an event this check's
+            # model does not transcribe yet
+            return [], "", ["correspondence: cannot render the cases for the model: %r" % (ex,)]
 
     def gen_args(self, tier, seed):
         n = self.N_QUICK if tier == "quick" else self.N_THOROUGH
@@ -96,10 +108,23 @@ class C10(Check):
         return any(p.get("n", 0) >= 1 for p in c["obs"]["probes"])
 
     def shrink(self, case, kind):
-        """keep only the first probed operation (and fault position) that shows the kind"""
+        """keep only one probed operation and one fault position showing the
+        kind.  The driver asks once per new (kind, site) in the order of
+        oracle_kinds and does not pass the site: it is the first pair of this
+        kind that was not handed out before and is not a known finding."""
+        done = self.__dict__.setdefault("_shrunk", set())
+        site = None
+        for kd, st in self.oracle_kinds(case):
+            if kd == kind and (kd, st) not in done and not match_known(self.ID, kd, st):
+                site = st
+                break
+        if site is None:
+            return case
+        done.add((kind, site))
+        want = "%s@%s" % (kind, site)
         for p in case["obs"]["probes"]:
             for k in p["ks"]:
-                if any(x.partition("@")[0] == kind for x in k.get("kinds", [])):
+                if want in k.get("kinds", []):
                     c2 = copy.deepcopy(case)
                     key = "txops" if case["in"]["kind"] == "tx" else "mgrops"
                     c2["in"][key] = [case["in"][key][p["idx"]]]
@@ -109,8 +134,33 @@ class C10(Check):
                     p2["ks"] = [k]
                     c2["obs"]["probes"] = [p2]
                     c2["oracle"] = list(k["kinds"])
-                    return c2
+                    return self.shrink_prefix(c2, kind, site)
         return case
+
+    def shrink_prefix(self, c2, kind, site):
+        """try the same operation and fault position from shorter histories
+        (empty, then halves); keep the shortest that still shows kind@site"""
+        key = "events" if c2["in"]["kind"] == "tx" else "mgrtxs"
+        prefix = c2["in"].get(key) or []
+        cands, n = [0], len(prefix) // 2
+        while 0 < n < len(prefix) and len(cands) < 4:
+            cands.append(n)
+            n += (len(prefix) - n + 1) // 2
+        for n in cands:
+            if n >= len(prefix):
+                break
+            trial = copy.deepcopy(c2["in"])
+            trial[key] = prefix[:n]
+            p = os.path.join(WORK, "shrink_C10.jsonl")
+            with open(p, "w") as f:
+                f.write(json.dumps({"in": trial}) + "\n")
+            try:
+                rc, cs, _ = run_vh([self.vh_cmd(), "-replay", p], timeout=300)
+            except Exception:
+                continue
+            if rc == 0 and cs and ("%s@%s" % (kind, site)) in cs[0].get("oracle", []):
+                return cs[0]
+        return c2
 
     def sample(self, c):
         return dict(kind=c["in"]["kind"],
@@ -136,6 +186,8 @@ class C10(Check):
             return "EvSeen %s" % _z(g("t"))
         if k == "confirm":
             return "EvConfirm %s %s %s %s" % (_z(g("t")), _z(g("h")), _z(g("b")), _z(g("bt")))
+        if k == "redeliver":
+            return "EvRedeliver %s %s %s %s" % (_z(g("t")), _z(g("h")), _z(g("b")), _z(g("bt")))
         if k == "disconnect":
             return "EvDisconnect %s" % _z(g("h"))
         if k == "abandon":
